@@ -24,7 +24,7 @@ import desugar
 raw = dict((b['path'], b) for b in j['bodies'])
 seen = {}
 def rec(cpath, kind, body):
-    root = raw[cpath].get('root') or cpath
+    root = body.get('root') or body['path']
     seen.setdefault(root, set()).add(kind)
     return False
 ds = desugar.Desugarer(raw, rec)
